@@ -691,6 +691,9 @@ func runFrame(fr *frame) {
 		r := recover()
 		switch r := r.(type) {
 		case pathEnd, engineError, goKill:
+			if ee, isEE := r.(engineError); isEE && debugPanics {
+				fmt.Fprintf(os.Stderr, "gobmc: engine error %.120s passes %s\n", string(ee), fr.fn)
+			}
 			panic(r)
 		case targetPanic:
 		case nil:
